@@ -1291,7 +1291,7 @@ def run(ctx):
         'implementation: strings with a backslash (unicode_escape), first lines / Content-Length values over 4000 '
         'characters, targets with // and brackets or non-ASCII (urlsplit ValueError), non-ASCII header names; urlsplit\'s '
         'path/query/scheme and the canonical-path guard remain parameters',
-        'HEAD requests, Content-Encoding gzip/deflate (decompress), Upgrade responses, pipelining: outside the model',
+        'Content-Encoding gzip/deflate (decompress), Upgrade responses: outside the model; HEAD, Expect: 100-continue and pipelined streams: c13_pipe (reads that straddle a request boundary are tied, not judged)',
         'in-process rig: read events fired on channel web, write/close captured, Date header frozen',
     ]
     ctx.assumptions += ['theorems assume a clean one-piece run (no byte beyond the end of the message, no parser error); '
